@@ -1,4 +1,5 @@
 import LenaModel.Model.C17
+import LenaModel.Lemmas.C17
 /-! # C17 — property theorems (flow iterators equal their Python reference) -/
 
 namespace Lena.C17
@@ -53,5 +54,108 @@ theorem slice_rejects_bad_step (start stop : Option Int) (s : Int) (hs : s ≤ 0
   · have : s < 0 := by omega
     have hn : ¬ (s ≥ 0) := by omega
     simp [hn, hs]
+
+/-! ### `pySlice` in transparent index form -/
+
+/-- Element `k` of `xs[start:stop:step]` is `xs[a + k*step]` as long as `a + k*step < b`, where `a`, `b`
+are the clamped bounds; there are no further elements. -/
+theorem pySlice_getElem? (xs : List α) (start stop : Option Int) (step : Nat) (hs : 1 ≤ step) (k : Nat) :
+    (pySlice xs start stop step)[k]? =
+      if adj xs.length start 0 + k * step < adj xs.length stop xs.length
+      then xs[adj xs.length start 0 + k * step]? else none := by
+  unfold pySlice
+  simp only []
+  rw [everyNth_getElem? step hs, List.getElem?_take, List.getElem?_drop]
+  by_cases h : adj xs.length start 0 + k * step < adj xs.length stop xs.length
+  · rw [if_pos h, if_pos (by omega)]
+  · rw [if_neg h, if_neg (by omega)]
+
+example : pySlice [10, 11, 12, 13, 14, 15, 16] (some (-6)) (some 6) 2 = [11, 13, 15] := by decide
+
+/-! ### `itertools.islice` is slicing -/
+
+/-- `islice(xs, a, b, s)` for non-negative `a`, `b` (or `b = None`) and `s ≥ 1` is `xs[a:b:s]` -/
+theorem islice_eq_pySlice (xs : List α) (a : Nat) (b : Option Nat) (s : Nat) (hs : 1 ≤ s) :
+    islice xs a b s = pySlice xs (some (a : Int)) (b.map Int.ofNat) s := by
+  unfold islice
+  rw [isliceGo_spec b s hs xs a 0 (Nat.zero_le _)]
+  unfold pySlice
+  simp only [Nat.sub_zero]
+  cases b with
+  | none =>
+    have : adj xs.length (none : Option Int) xs.length = xs.length := rfl
+    simp only [takeOpt, Option.map_none, adj_ofNat, this, window_clamp_none]
+  | some b =>
+    simp only [takeOpt, Option.map_some, Int.ofNat_eq_natCast, adj_ofNat, window_clamp]
+
+example : islice [0, 1, 2, 3, 4, 5, 6, 7] 1 (some 6) 2 = [1, 3, 5] := by decide
+
+/-! ### the negative-index generator is slicing -/
+
+/-- at least one of `start`, `stop` is a negative integer: what `Slice.__init__` routes to
+`_run_negative_islice` -/
+def HasNeg (start stop : Option Int) : Prop :=
+  (∃ i, start = some i ∧ i < 0) ∨ (∃ i, stop = some i ∧ i < 0)
+
+theorem pySlice_one (xs : List α) (start stop : Option Int) :
+    pySlice xs start stop 1
+      = (xs.drop (adj xs.length start 0)).take (adj xs.length stop xs.length - adj xs.length start 0) := by
+  unfold pySlice
+  simp only [everyNth_one]
+
+private theorem neg_witness (i : Int) (h : i < 0) : ∃ k : Nat, 0 < k ∧ i = -(k : Int) :=
+  ⟨(-i).toNat, by omega, by omega⟩
+
+private theorem nonneg_witness (i : Int) (h : ¬ i < 0) : ∃ k : Nat, i = (k : Int) :=
+  ⟨i.toNat, by omega⟩
+
+/-- branch `start is None` (stop = −k): all values except the last `k` -/
+theorem runNegative_none_neg (k : Nat) (hk : 0 < k) (xs : List α) :
+    runNegative none (some (-(k : Int))) xs = .ok (pySlice xs none (some (-(k : Int))) 1) := by
+  rw [pySlice_one, adj_neg _ _ _ hk]
+  have h0 : adj xs.length (none : Option Int) 0 = 0 := rfl
+  have hk' : (- -(k : Int)).toNat = k := by omega
+  simp only [runNegative, hk', h0, List.drop_zero, Nat.sub_zero]
+  rw [fillDeque_spec k k [] xs (by simp)]
+  simp only [List.append_nil]
+  by_cases hx : xs.length ≤ k
+  · rw [List.drop_eq_nil_of_le hx, lagLoop_nil]
+    have : xs.length - k = 0 := by omega
+    simp [this]
+  · have hne : (xs.take k).reverse ≠ [] := by
+      intro h
+      have := congrArg List.length h
+      simp only [List.length_reverse, List.length_take, List.length_nil] at this
+      omega
+    rw [lagLoop_spec k _ _ hne (by simp; omega)]
+    simp
+
+/-- branch `start ≥ 0`, stop = −k -/
+theorem runNegative_pos_neg (a k : Nat) (hk : 0 < k) (xs : List α) :
+    runNegative (some (a : Int)) (some (-(k : Int))) xs
+      = .ok (pySlice xs (some (a : Int)) (some (-(k : Int))) 1) := by
+  rw [pySlice_one, adj_neg _ _ _ hk, adj_ofNat]
+  have hk' : (- -(k : Int)).toNat = k := by omega
+  have ha : ((a : Int) ≥ 0) := by omega
+  have ha' : (a : Int).toNat = a := by omega
+  simp only [runNegative, ha, if_true, ha', hk']
+  rw [fillDeque_spec k k [] _ (by simp)]
+  simp only [List.append_nil, List.length_reverse, List.length_take, List.length_drop]
+  by_cases hx : xs.length - a < k
+  · have h1 : min k (xs.length - a) < k := by omega
+    have h2 : xs.length - k - min a xs.length = 0 := by omega
+    rw [if_pos h1, h2]
+    simp
+  · have h1 : ¬ (min k (xs.length - a) < k) := by omega
+    have hne : ((xs.drop a).take k).reverse ≠ [] := by
+      intro h
+      have := congrArg List.length h
+      simp only [List.length_reverse, List.length_take, List.length_drop, List.length_nil] at this
+      omega
+    rw [if_neg h1, lagLoop_spec k _ _ hne (by simp; omega), List.reverse_reverse, List.take_append_drop]
+    have h3 : min a xs.length = a := by omega
+    have h4 : xs.length - k - a = xs.length - a - k := by omega
+    have h5 : xs.length - (a + k) = xs.length - a - k := by omega
+    simp only [h3, h4, h5, List.length_drop, List.drop_drop]
 
 end Lena.C17
